@@ -3,7 +3,7 @@
    closed by [exact lemma] (or a one-line instantiation), non-vacuity Examples,
    and Print Assumptions. *)
 From RJ Require Import Base.Outcome Model.Token Model.Ast Model.Parser Model.Print
-  Proofs.Parser_proofs Proofs.Parser_inv Proofs.Parser_rt3 Proofs.Parser_rt_cor Gen.PrecTable.
+  Proofs.Parser_proofs Proofs.Parser_inv Proofs.Parser_rt_cor Gen.PrecTable.
 Local Open Scope list_scope.
 Local Open Scope N_scope.
 
@@ -76,21 +76,25 @@ Theorem C15_left_assoc : forall op n,
   parse_tree spec_prec (chain_toks op n) = Ok (chain_tree op n).
 Proof. exact left_assoc. Qed.
 
-(* print / re-parse round trip for every well-parenthesised tree built from the
-   constructors accepted by [core_expr] (unbounded size and nesting) *)
-Theorem C15_parse_print_roundtrip_partial : forall e, core_expr e = true -> Print.wp e = true ->
+(* print / re-parse round trip: EVERY well-parenthesised tree (all constructors, unbounded
+   size and nesting) prints to tokens that the parser turns back into the same tree *)
+Theorem C15_parse_print_roundtrip : forall e, Print.wp e = true ->
   parse_tree spec_prec (print_tokens e) = Ok (strip_spans e).
-Proof. exact parse_print_roundtrip_partial. Qed.
+Proof. exact parse_print_roundtrip. Qed.
 
-(* the fully parenthesised print of a covered tree parses to the same tree modulo Paren *)
-Theorem C15_redundant_parens_partial : forall e, core_expr e = true ->
+(* the fully parenthesised print parses to the same tree modulo Paren *)
+Theorem C15_redundant_parens_equiv : forall e, Print.wp e = true ->
   exists e', parse_tree spec_prec (print_tokens (full_paren e)) = Ok e' /\
              strip_paren e' = strip_paren (strip_spans e).
-Proof. exact redundant_parens_partial. Qed.
+Proof. exact redundant_parens_equiv. Qed.
 
 Example C15_roundtrip_nonvacuous :
-  let e := bin (un UMinus (EParen sp0 (bin a_ BAdd b_))) BMul (EParen sp0 (insup (bin c_ BLt a_))) in
-  core_expr e = true /\ Print.wp e = true /\ Print.wp (bin (bin a_ BAdd b_) BMul c_) = false.
+  let e1 := bin (un UMinus (EParen sp0 (bin a_ BAdd b_))) BMul (EParen sp0 (insup (bin c_ BLt a_))) in
+  let e2 := ECall sp0 (EField sp0 (EObject sp0 (OComp [MkBind (idn 108) None a_] a_ true b_ []
+                                                   [CFor (idn 120) c_; CIf a_])) (idn 102))
+                  [ANamed (idn 120) (ESlice sp0 a_ None (Some b_) None);
+                   APositional (ELocal sp0 [MkBind (idn 102) (Some ([MkParam (idn 120) (Some a_)], sp0)) b_] c_)] true in
+  Print.wp e1 = true /\ Print.wp e2 = true /\ Print.wp (bin (bin a_ BAdd b_) BMul c_) = false.
 Proof. vm_compute. repeat split. Qed.
 
 (* the Rust parser recurses on the native stack once per nesting level of
@@ -141,15 +145,6 @@ Example C15_wf_nonvacuous :
   (exists e, parse spec_prec ex_bad = Err e /\ pe_span e = (4, 5)).
 Proof. split; [exact (proj1 ex_toks_wf)|]. split; [exact (proj2 ex_toks_wf)|]. split; [exact ex_toks_ok | exact ex_bad_err]. Qed.
 
-(* the full round-trip statement (DESIGN §5): proved above for the constructors of
-   [core_expr]; for the remaining ones it is exercised on every run through the
-   extracted printer+parser (K, `rt`) *)
-Definition C15_goal : Prop := forall e, Print.wp e = true ->
-  parse_tree spec_prec (print_tokens e) = Ok (strip_spans e).
-Definition C15_goal_redundant : Prop := forall e, Print.wp e = true ->
-  exists e', parse_tree spec_prec (print_tokens (full_paren e)) = Ok e' /\
-             strip_paren e' = strip_paren (strip_spans e).
-
 Print Assumptions C15_precedence_chain_matches.
 Print Assumptions C15_precedence_table.
 Print Assumptions C15_unary_binds_tighter.
@@ -158,8 +153,8 @@ Print Assumptions C15_postfix_chain.
 Print Assumptions C15_in_super_form.
 Print Assumptions C15_slice_layouts.
 Print Assumptions C15_left_assoc.
-Print Assumptions C15_parse_print_roundtrip_partial.
-Print Assumptions C15_redundant_parens_partial.
+Print Assumptions C15_parse_print_roundtrip.
+Print Assumptions C15_redundant_parens_equiv.
 Print Assumptions C15_roundtrip_nonvacuous.
 Print Assumptions C15_native_depth_unbounded.
 Print Assumptions C15_parse_error_at_token.
